@@ -129,3 +129,11 @@ Definition rng_of_seed (seed : Z) : result rngkey := if seed <? 0 then Err 2 els
 (* the Theta objects themselves are abstracted *)
 Definition theta : Type := unit.
 Definition vi_samples (returned : nat) : list theta := repeat tt returned.
+
+(* ---- appended (gap review g5): the generator a trace hands to the model = the key of its first SetRng event ---- *)
+Fixpoint handed_key (tr : list event) : option (Z * list Z) :=
+  match tr with
+  | [] => None
+  | SetRng e sk :: _ => Some (e, sk)
+  | _ :: r => handed_key r
+  end.
